@@ -32,7 +32,7 @@ ASSUMPTIONS = [
     "Anchor's expansion of #[derive(Accounts)] is modelled (AnchorSem.v, from anchor-syn 0.31.1 codegen) and validated natively, not on BPF",
     "PDA derivation is an abstract function `pda`; the theorems hold for every such function (no injectivity needed: they state key = pda(seeds))",
     "constraints outside the vocabulary (7 venue-specific expressions) are uninterpreted (COpaque): the theorems hold for every interpretation",
-    "in-body handler guards (bankruptcy / clone_emode / freeze signer checks, validate_bank_state calls, emissions destination, fee ATA) are modelled by hand in Spec.v",
+    "in-body handler guards (bankruptcy / clone_emode / freeze signer checks, validate_bank_state calls) are modelled by hand in Spec.v",
     "signature verification, account ownership rules and transaction atomicity are properties of the Solana runtime (modelled: signers set, owner field, store unchanged on failure)",
     "Kamino / Drift / Solend instructions need venue CPIs: only their account-validation verdict is compared (mode val); their positive cells are not executed",
 ]
@@ -256,6 +256,27 @@ def subst_cells(ix, base):
     return out
 
 
+def bundle_cells(ix, base):
+    """the realistic substitution: a foreign (or other) bank / account passed TOGETHER with everything derived from
+    it (its own vaults, authorities, record, metadata), everything else unchanged"""
+    out = []
+    e = A.entry(ix)
+    for f, (n, o) in zip(e["fields"], base["fields"]):
+        if f["init"] or not (f["w"] == "WLoader" and f["arg"] in ("Bank", "MarginfiAccount")):
+            continue
+        if o not in FOREIGN:
+            continue
+        c = A.with_field(base, n, FOREIGN[o])
+        changed = False
+        for n2, o2 in base["fields"]:
+            if parent(o2) == o and re.fullmatch(r"\w+\.(lv|lva|iv|iva|fv|fva)", o2):
+                c = A.with_field(c, n2, FOREIGN[o] + o2[len(o):])
+                changed = True
+        if changed:
+            out.append(meta(A.line(c), k="sub", f=n, s="bundle-foreign"))
+    return out
+
+
 def matrix():
     lines = []
     for ix in A.instructions():
@@ -263,6 +284,7 @@ def matrix():
         lines.append(meta(A.line(base), k="base"))
         lines += signer_cells(ix, base)
         lines += subst_cells(ix, base)
+        lines += bundle_cells(ix, base)
     return lines
 
 
@@ -308,6 +330,22 @@ def merge(a, b):
                 s=ka.get("s", "signer") + "+" + kb.get("s", "signer"))
 
 
+def signer_rule_cases(rng, n_random):
+    """level A: the real is_signer_authorized / account_not_frozen_for_authority. All 2^7 flag words of the defined
+    bits x {signer = authority, admin, both (authority = admin), neither} x allow, plus random 64-bit flag words"""
+    out = []
+    configs = [(1, 2, 1), (1, 2, 2), (1, 1, 1), (1, 2, 3), (1, 1, 3)]     # (authority, admin, signer)
+    for fl in range(128):
+        for au, ad, sg in configs:
+            for allow in (0, 1):
+                out.append(f"S {fl} {au} {ad} {sg} {allow}")
+    for _ in range(n_random):
+        fl = rng.getrandbits(64) if rng.random() < 0.5 else rng.choice([0, 16, 64, 80, 2**63, 2**64 - 1, 2**64 - 1 - 64, 2**64 - 1 - 16])
+        au, ad, sg = rng.choice(configs)
+        out.append(f"S {fl} {au} {ad} {sg} {rng.randrange(2)}")
+    return out
+
+
 def suites(rng, tier):
     m = matrix()
     n_double = {"quick": 600, "thorough": 24000, "search": 4000}[tier]
@@ -321,6 +359,8 @@ def suites(rng, tier):
         {"suite": "auth", "name": "auth-matrix", "lines": m,
          "distribution": {"instructions": len(A.instructions()), "cells_by_kind": dist}},
         {"suite": "auth", "name": "auth-double-faults", "lines": d, "distribution": {"cells": len(d)}},
+        {"suite": "auth", "name": "signer-rule-fn", "lines": signer_rule_cases(rng, {"quick": 500, "thorough": 20000, "search": 2000}[tier]),
+         "distribution": {"exhaustive_flag_words": 128, "signer_configs": 5}},
     ]
 
 
@@ -407,10 +447,34 @@ def must_reject(k):
 
 
 def nontrivial(suite, case, impl):
+    if case.startswith("S "):
+        return impl in ("0 0", "0 1", "1 0", "1 1")
     return impl.startswith(("OK", "V ", "B ", "PASSV"))
 
 
+def oracle_signer_rule(case, impl):
+    """the three lines of the property, evaluated on the real functions' answers"""
+    _, fl, au, ad, sg, allow = case.split()
+    fl, allow = int(fl), allow == "1"
+    frozen, recv = bool(fl & 64), bool(fl & 16)
+    if impl not in ("0 0", "0 1", "1 0", "1 1"):
+        return {"key": "signer-rule-fn-abort", "what": f"signer rule functions aborted: {impl}"}
+    passed = impl == "1 1"
+    if allow and recv:
+        want = not (frozen and sg == au)
+    elif frozen:
+        want = sg == ad and sg != au
+    else:
+        want = sg == au
+    if passed != want:
+        return {"key": f"signer-rule:{'accepts' if passed else 'refuses'}:frozen={int(frozen)}:recv={int(recv)}:allow={int(allow)}",
+                "what": f"is_signer_authorized && account_not_frozen_for_authority = {passed} for flags={fl} authority={au} admin={ad} signer={sg} allow_receivership={allow}"}
+    return None
+
+
 def oracle(suite, case, impl):
+    if case.startswith("S "):
+        return oracle_signer_rule(case, impl)
     k = kvs(case)
     ix = k["ix"]
     if "STORE-CHANGED" in impl:
